@@ -8,27 +8,30 @@
 EXTENDS Naturals, Integers, Sequences, FiniteSets, TLC, AutomatonData
 
 DIdx(x) == x + 2                                       \* depth -1..MaxD -> index 1..MaxD+2
+SIdx(b) == IF b THEN 2 ELSE 1                          \* satisfied flag -> index
+\* the state of a stateful predicate is <<nesting depth, satisfied flag>>
 AllOut(k, s) == { t \in ATrans[k] : t[1] = s }
 (* Pattern.consume: while a predicate on an outgoing transition is open (inside its group), only the open *)
 (* predicates are consulted - every item belongs to the group, whatever else could match it              *)
-OpenOut(k, s, dd) == { t \in AllOut(k, s) : AOpen[k][t[2]][DIdx(dd[t[2]])] }
+OpenOut(k, s, dd) == { t \in AllOut(k, s) : AOpen[k][t[2]][DIdx(dd[t[2]][1])][SIdx(dd[t[2]][2])] }
 Out(k, s, dd) == IF OpenOut(k, s, dd) # {} THEN OpenOut(k, s, dd) ELSE AllOut(k, s)
 PredsAt(k, s, dd) == { t[2] : t \in Out(k, s, dd) }
-Res(k, p, dd, c) == AAcc[k][p][DIdx(dd[p])][c]           \* <<accepts, depth'>>
+Res(k, p, dd, c) == AAcc[k][p][DIdx(dd[p][1])][SIdx(dd[p][2])][c]      \* <<accepts, depth', satisfied'>>
 EnabledSet(k, s, dd, c) == { t \in Out(k, s, dd) : Res(k, t[2], dd, c)[1] }
 Cap(x) == IF x > MaxD THEN MaxD ELSE IF x < -1 THEN -1 ELSE x
-Depth0(k) == [p \in 1..ANPreds[k] |-> 0]
+Depth0(k) == [p \in 1..ANPreds[k] |-> <<0, FALSE>>]
 
 (* successor depth vectors (a set: non-deterministic only when leaving the saturated value) *)
 NextDs(k, s, dd, c) ==
   LET base == [p \in 1..ANPreds[k] |->
-                 IF p \in PredsAt(k, s, dd) /\ p \in AStateful[k] THEN Cap(Res(k, p, dd, c)[2]) ELSE dd[p]]
-      sat  == { p \in PredsAt(k, s, dd) \cap AStateful[k] : dd[p] = MaxD /\ base[p] = MaxD - 1 }
-  IN  { [p \in 1..ANPreds[k] |-> IF p \in T THEN MaxD ELSE base[p]] : T \in SUBSET sat }
+                 IF p \in PredsAt(k, s, dd) /\ p \in AStateful[k]
+                 THEN <<Cap(Res(k, p, dd, c)[2]), Res(k, p, dd, c)[3]>> ELSE dd[p]]
+      sat  == { p \in PredsAt(k, s, dd) \cap AStateful[k] : dd[p][1] = MaxD /\ base[p][1] = MaxD - 1 }
+  IN  { [p \in 1..ANPreds[k] |-> IF p \in T THEN <<MaxD, base[p][2]>> ELSE base[p]] : T \in SUBSET sat }
 (* exact successor when no counter is saturated (used by the search reference below) *)
 NextD(k, s, dd, c) ==
   [p \in 1..ANPreds[k] |->
-     IF p \in PredsAt(k, s, dd) /\ p \in AStateful[k] THEN Cap(Res(k, p, dd, c)[2]) ELSE dd[p]]
+     IF p \in PredsAt(k, s, dd) /\ p \in AStateful[k] THEN <<Cap(Res(k, p, dd, c)[2]), Res(k, p, dd, c)[3]>> ELSE dd[p]]
 
 (***************************************************************************)
 (* Search over token-class sequences with the extracted automata (C14,     *)
@@ -61,5 +64,5 @@ HSearchFrom(a, w, s) ==
 HSearch(a, w) == HSearchFrom(a, w, 0)
 (* parenthesis-balancing patterns end before the end of input only at nesting depth zero *)
 BalancedEndAt(a, w, s) == LET r == Attempt(a, w, s) IN
-                            (Succeeds(a, w, s) /\ r[1] < Len(w)) => \A p \in AStateful[a] : r[3][p] = 0
+                            (Succeeds(a, w, s) /\ r[1] < Len(w)) => \A p \in AStateful[a] : r[3][p][1] = 0
 =============================================================================
